@@ -24,3 +24,6 @@ pub fn param_from_iso2(t: &Iso2) -> T2Storage {
     let z = t.rotation.angle();
     T2Storage::new(v.x, v.y, z)
 }
+
+#[cfg(feature = "verif")]
+pub use jacobian::point_surface_jacobian as verif_point_surface_jacobian;
